@@ -170,3 +170,46 @@ def run(res, a):
                                                                  "" if mode == "fresh" else " after %d failed attempt(s) with the same objects" % (1 if mode == "retry" else 2)),
                                                              "failing_input_found": True, "replay": "python3 tools/check.py C14 --replay <this file>"}))
         res.obligations.append(("implementation-side runs: ids of accessories handed to NewIPTransport (fresh, after failed attempts)", bad == 0, "%d runs, %d differing" % (3 * len(tc), bad)))
+    # the attribute database as two controllers are served it at the same time (full stack, implementation side only):
+    # every /accessories and /characteristics answer must be well-formed JSON and the same as when read alone
+    from . import stackcommon as sc
+    if not a.replay or json.load(open(a.replay))["case"].startswith("sk "):
+        if a.replay:
+            rl = [json.load(open(a.replay))["case"]]
+        else:
+            rl = ["sk tbl=%s nacc=%d N:a S:a:c0:ok V:a:c0:ok N:b V:b:c0:ok RACE:a:b:%d" % (sc.table_for("nacc=%d" % k), k, 40 if a.tier == "quick" else 200)
+                  for k in ([24, 40] if a.tier == "quick" else [24, 40, 60, 24, 40, 60])]
+        obs = core.shard_run(os.path.join(core.BUILD, "hcdrv"), "stack", ["rc%d %s" % (i, l) for i, l in enumerate(rl)])
+        bad = 0
+        for i, l in enumerate(rl):
+            o = obs.get("rc%d" % i, "NO-OUTPUT")
+            res.cases += 1
+            res.count("kind:served-concurrently")
+            if not o.endswith("RACE=ok"):
+                bad += 1
+                if bad == 1:
+                    res.violations.append(("served", {"property": ID, "family": "stack", "seed": res.seed, "case": l, "implementation_observed": o[-300:],
+                                                      "required": "served to two controllers at the same time, an answer is not the well-formed attribute database a controller reading alone gets (%s)" % o.split(" ")[-1][:80],
+                                                      "failing_input_found": True, "replay": "python3 tools/check.py C14 --replay <this file>"}))
+        res.obligations.append(("implementation-side runs: /accessories and /characteristics served to two controllers at the same time", bad == 0, "%d runs, %d failing" % (len(rl), bad)))
+    # ... and with the interleaving forced at a chunk boundary (A's socket write blocks after its first chunk, another
+    # JSON answer is encoded and written meanwhile on the same scheduler thread)
+    if not a.replay or json.load(open(a.replay))["case"].startswith("served "):
+        rng2 = core.rng_for(ID + "/served", res.seed)
+        if a.replay:
+            sl = [json.load(open(a.replay))["case"]]
+        else:
+            sl = ["served " + ";".join("0:" + rng2.choice(svcs) for _ in range(k)) for k in ([3, 12, 30] if a.tier == "quick" else [1, 2, 3, 5, 8, 12, 20, 30, 60, 100])]
+        obs = core.shard_run(os.path.join(core.BUILD, "hcdrv"), FAMILY, ["sv%d %s" % (i, l) for i, l in enumerate(sl)])
+        bad = 0
+        for i, l in enumerate(sl):
+            o = obs.get("sv%d" % i, "NO-OUTPUT")
+            res.cases += 1
+            res.count("kind:served-interleaved")
+            if not o.endswith(" A=own B=own"):
+                bad += 1
+                if bad == 1:
+                    res.violations.append(("served", {"property": ID, "family": FAMILY, "seed": res.seed, "case": l, "implementation_observed": o[-300:],
+                                                      "required": "the attribute database written in chunks to one controller while another JSON answer is written to a second controller between two chunks: a controller does not receive its own well-formed answer (%s)" % o[-40:],
+                                                      "failing_input_found": True, "replay": "python3 tools/check.py C14 --replay <this file>"}))
+        res.obligations.append(("implementation-side runs: chunked /accessories answer interleaved with another JSON answer at a chunk boundary", bad == 0, "%d runs, %d failing" % (len(sl), bad)))
